@@ -211,4 +211,61 @@ N('A-values-view', ['C01'], 'index.py', 'Index.values',
 N('A-series-reindex-freeze-redundant', ['C01'], 'type_blocks.py', 'TypeBlocks._shift_blocks',
   'b.flags.writeable = False', 'pass')
 
+# ---------------------------------------------------------------------------------- C / D (C09)
+B('C-rename-share-blocks', ['C09'], 'frame.py', 'Frame.rename',
+  'self._blocks.copy()', 'self._blocks', 'C.own-handoff', 'Frame.rename')
+B('C-group-own-go-columns', ['C09'], 'frame.py', 'Frame._axis_group_iloc_items',
+  'own_columns=self.STATIC, # own if static', 'own_columns=True,', 'C.own-handoff', '_axis_group_iloc_items')
+B('C-setindex-flag-flip', ['C09', 'C20'], 'frame.py', 'Frame.set_index',
+  'columns = self._columns\n            own_data = False\n            own_columns = False', 'columns = self._columns\n            own_data = False\n            own_columns = True',
+  'C.own-handoff', 'Frame.set_index')
+B('C-setindex-data-flip', ['C09', 'C20'], 'frame.py', 'Frame.set_index',
+  'blocks = self._blocks\n            columns = self._columns\n            own_data = False', 'blocks = self._blocks\n            columns = self._columns\n            own_data = True',
+  'C.own-handoff', 'Frame.set_index')
+B('C-extract-own-null-slice', ['C09', 'C04'], 'frame.py', 'Frame._extract',
+  'own_columns = self._COLUMNS_CONSTRUCTOR.STATIC', 'own_columns = True', 'C.own-handoff', 'Frame._extract')
+B('C-togo-own-columns', ['C09'], 'frame.py', 'FrameGO._to_frame',
+  'own_columns=False, # all cases need new columns', 'own_columns=True,', 'C.', 'FrameGO._to_frame')
+B('C-toframe-no-copy', ['C09'], 'frame.py', 'Frame._to_frame',
+  'self._blocks.copy()', 'self._blocks', 'C.own-handoff', 'Frame._to_frame')
+B('C-index-share-map', ['C09', 'C02'], 'index.py', 'Index.__init__',
+  'if (labels.STATIC and self.STATIC and dtype is None):', 'if (self.STATIC and dtype is None):', 'C.sharing-guards', 'Index.__init__')
+B('C-ih-share-levels', ['C09', 'C05'], 'index_hierarchy.py', 'IndexHierarchy.__init__',
+  'if self.STATIC and index_level.STATIC:', 'if index_level.STATIC:', 'C.sharing-guards', 'IndexHierarchy.__init__')
+B('C-optional-ctor-share', ['C09'], 'container_util.py', 'index_from_optional_constructor',
+  '            if not value.STATIC:\n                # v: ~S, dc: ~S, both are mutable\n                return value.copy()',
+  '            if not value.STATIC:\n                return value', 'C.sharing-guards', 'index_from_optional_constructor')
+B('C-immutable-filter-always', ['C09'], 'index.py', 'immutable_index_filter',
+  'if index.STATIC:\n        return index', 'if True:\n        return index', 'C.sharing-guards', 'immutable_index_filter')
+B('C-grow-shared-blocks', ['C09', 'C20'], 'frame.py', 'Frame.relabel_shift_in',
+  'ih_blocks = index_target._blocks.copy() # will mutate copied blocks', 'ih_blocks = index_target._blocks', 'C.who-may-grow', 'relabel_shift_in')
+B('C-grow-foreign-columns', ['C09'], 'frame.py', 'Frame._insert',
+  'columns = self._columns.__class__.from_labels(chain(', 'self._columns.extend(())\n        columns = self._columns.__class__.from_labels(chain(', 'C.who-may-grow', 'Frame._insert')
+N('C-hoist-copy', ['C09'], 'frame.py', 'Frame.rename',
+  'return self.__class__(self._blocks.copy(),', 'blocks_new = self._blocks.copy()\n        return self.__class__(blocks_new,')
+N('C-static-guard-spelling', ['C09'], 'frame.py', 'Frame._axis_group_iloc_items',
+  'own_columns=self.STATIC, # own if static', 'own_columns=self._COLUMNS_CONSTRUCTOR.STATIC,')
+B('D1-typeblocks-skip-dtypes', ['C09', 'C03'], 'type_blocks.py', 'TypeBlocks.append',
+  'self._dtypes.append(block.dtype)', 'pass', 'D1', 'TypeBlocks.append')
+B('D1-ihgo-append-no-recache', ['C09', 'C05'], 'index_hierarchy.py', 'IndexHierarchyGO.append',
+  'self._recache = True', 'pass', 'D1', 'IndexHierarchyGO.append')
+B('D1-levelgo-extend-no-length-reset', ['C09', 'C05', 'C02'], 'index_level.py', 'IndexLevelGO.extend',
+  'self._length = None', 'pass', 'D1', 'IndexLevelGO.extend')
+B('D1-levelgo-append-no-length-reset', ['C09', 'C05', 'C02'], 'index_level.py', 'IndexLevelGO.append',
+  'for node in edge_nodes:\n            node._length = None', 'pass', 'D1', 'IndexLevelGO.append')
+B('D1-indexgo-append-no-recache', ['C09', 'C02'], 'index.py', '_IndexGOMixin.append',
+  'self._positions_mutable_count += 1\n        self._recache = True', 'self._positions_mutable_count += 1', 'D1', '_IndexGOMixin.append')
+B('D1-indexgo-append-early-return', ['C09', 'C02'], 'index.py', '_IndexGOMixin.append',
+  'if initialize_map:\n            self._map = AutoMap(self._labels_mutable)', 'if initialize_map:\n            self._map = AutoMap(self._labels_mutable)\n            return', 'D1', '_IndexGOMixin.append')
+B('D2-setitem-mutate-before-validate', ['C09'], 'frame.py', 'FrameGO.__setitem__',
+  '        row_count = len(self._index)\n', '        row_count = len(self._index)\n        self._columns.append(key)\n', 'D2', 'FrameGO.__setitem__')
+B('D2-setitem-drop-length-check', ['C09'], 'frame.py', 'FrameGO.__setitem__',
+  "            if block.ndim != 1 or len(block) != row_count:\n                raise RuntimeError('incorrectly sized, unindexed value')", '            pass', 'D2', 'FrameGO.__setitem__')
+B('D2-extend-drop-precheck', ['C09'], 'frame.py', 'FrameGO.extend',
+  'if key in self._columns:', 'if False:', 'D2', 'FrameGO.extend')
+B('D2-indexgo-append-dup-after', ['C09', 'C02'], 'index.py', '_IndexGOMixin.append',
+  "        if self.__contains__(value): #type: ignore\n            raise KeyError(f'duplicate key append attempted: {value}')\n",
+  "        self._labels_mutable.append(value)\n        if self.__contains__(value): #type: ignore\n            raise KeyError(f'duplicate key append attempted: {value}')\n", 'D2', '_IndexGOMixin.append')
+N('D-reorder-directory-appends', ['C09', 'C03'], 'type_blocks.py', 'TypeBlocks.append',
+  'self._index.append((block_idx, i))\n            self._dtypes.append(block.dtype)', 'self._dtypes.append(block.dtype)\n            self._index.append((block_idx, i))')
 VARIANTS = V
